@@ -1,7 +1,7 @@
 package c15
 
 import (
-	"container/list"
+	"errors"
 	"fmt"
 	"sort"
 	"strings"
@@ -11,18 +11,54 @@ import (
 	"verif/core"
 	"verif/world"
 
+	bftcommon "github.com/xuperchain/xupercore/kernel/consensus/base/common"
 	bft "github.com/xuperchain/xupercore/kernel/consensus/base/driver/chained-bft"
+	"github.com/xuperchain/xupercore/kernel/ledger"
 )
 
-// newTree builds the pending tree exactly as common.InitQCTree does for a
-// fresh chain (common.go:81-89): Genesis = Root = HighQC = CommitQC.
-func newTree() *bft.QCPendingTree {
-	g := &bft.ProposalNode{In: &bft.QuorumCert{
-		VoteInfo:         &bft.VoteInfo{ProposalId: []byte(genesis), ProposalView: 0},
-		LedgerCommitInfo: &bft.LedgerCommitInfo{CommitStateId: []byte(genesis)},
-	}}
-	return &bft.QCPendingTree{Genesis: g, Root: g, HighQC: g, CommitQC: g,
-		Log: world.NopLogger{}, OrphanList: list.New(), OrphanMap: map[string]bool{}}
+// fakeLedger is the LedgerRely handed to common.InitQCTree: block 0 is the
+// genesis G, blocks 1..n are the universe's pre-confirmed chain (heights =
+// views).
+type fakeLedger struct{ u *universe }
+
+func (l fakeLedger) block(h int64) (ledger.BlockHandle, error) {
+	if h == 0 {
+		return &fakeBlock{id: []byte(genesis), height: 0}, nil
+	}
+	if h < 0 || int(h) > len(l.u.Ledger) {
+		return nil, errors.New("block not found")
+	}
+	n := l.u.Ledger[h-1]
+	return &fakeBlock{id: []byte(n), pre: []byte(l.u.parent(n)), height: h}, nil
+}
+func (l fakeLedger) GetConsensusConf() ([]byte, error) { return nil, nil }
+func (l fakeLedger) QueryBlock(id []byte) (ledger.BlockHandle, error) {
+	for h := 0; h <= len(l.u.Ledger); h++ {
+		if b, _ := l.block(int64(h)); string(b.GetBlockid()) == string(id) {
+			return b, nil
+		}
+	}
+	return nil, errors.New("block not found")
+}
+func (l fakeLedger) QueryBlockByHeight(h int64) (ledger.BlockHandle, error) { return l.block(h) }
+func (l fakeLedger) GetTipBlock() ledger.BlockHandle {
+	b, _ := l.block(int64(len(l.u.Ledger)))
+	return b
+}
+func (l fakeLedger) GetTipXMSnapshotReader() (ledger.XMSnapshotReader, error) { return nil, nil }
+func (l fakeLedger) CreateSnapshot([]byte) (ledger.XMReader, error)           { return nil, nil }
+func (l fakeLedger) GetTipSnapshot() (ledger.XMReader, error)                 { return nil, nil }
+
+// newTree builds the pending tree with the real common.InitQCTree (start
+// height 1): Genesis = Root = HighQC = CommitQC on a fresh chain
+// (common.go:81-89), Root = tip-3 / GenericQC = tip-2 / HighQC = tip-1 after a
+// restart on a longer ledger (common.go:91-130).
+func newTree(u *universe) *bft.QCPendingTree {
+	t := bftcommon.InitQCTree(1, fakeLedger{u}, world.NopLogger{})
+	if t == nil {
+		core.HarnessError("c15: InitQCTree returned nil for universe %s", u.Name)
+	}
+	return t
 }
 
 // newNode builds a fresh node object the way handleReceivedProposal does
@@ -103,7 +139,11 @@ type treeInst struct {
 }
 
 func newTreeInst(u *universe, c *counters) *treeInst {
-	return &treeInst{u: u, t: newTree(), accepted: map[string]bool{}, cnt: c}
+	i := &treeInst{u: u, t: newTree(u), accepted: map[string]bool{}, cnt: c}
+	for _, n := range u.Ledger {
+		i.accepted[n] = true // stored by InitQCTree (those below the restart root are not demanded)
+	}
+	return i
 }
 
 func (i *treeInst) Close() {}
